@@ -232,6 +232,7 @@ func pickN(r *common.Rng, xs []string, k int) []string {
 func gen(thorough bool) {
 	r := common.NewRng(common.Seed())
 	static := staticOps()
+	out.Line("A %s", strings.Join(static, " ")) // procbuilder.Allopcodes before any dynamic opcode is created
 
 	// (1) every static opcode in isolation (mode ha; the opcodes that need RAM also in vn and hy)
 	for _, o := range static {
